@@ -231,3 +231,34 @@ Proof. destruct o as [[[[k'|e] x] g]|p]; cbn; intros H; try discriminate. inject
 Lemma out_x_witness {A : SArith} (o : res (iout A)) x :
   out_x o = Some x -> exists r g, o = Ok (r, x, g).
 Proof. destruct o as [[[r x'] g]|p]; cbn; intros H; try discriminate. injection H as ->. eauto. Qed.
+
+Section Startup.
+Context {A : SArith}.
+Notation F := (T (SA A)).
+Variables (mulA mulAT : list F -> res (list F)) (rows cols : nat).
+
+(* ANY arithmetic (floats included): if the start-up residual r = b - A x0 the code forms passes the
+   code's test, every solver returns Ok 0 at once and leaves x0 untouched *)
+Lemma run_startup_accepts sv (b x0 : list F) max tol ax r e :
+  (forall itol, sv = BiCG itol -> itol = 1 \/ itol = 2) ->
+  guards rows cols b x0 = Ok tt -> mulA x0 = Ok ax -> vsub b ax = Ok r ->
+  div (norm2 r) (nz (norm2 b)) = Ok e -> leb e tol = true ->
+  exists g, run mulA mulAT rows cols sv b x0 max tol = Ok (IOk 0, x0, g).
+Proof.
+  intros Hit Hg Eax Er Ee Ht.
+  destruct sv as [|itol| |]; cbn [run].
+  - unfold solve_cg. rewrite Hg, Eax. cbn [bind]. rewrite Er. cbn [bind]. rewrite Ee. cbn [bind]. rewrite Ht. eauto.
+  - apply guards_Ok in Hg as Hl. destruct Hl as (Hb & Hc & Hx).
+    apply vsub_Ok in Er as Hr. destruct Hr as (Hlr & Hrv).
+    assert (Hrl : length r = rows) by (subst r; rewrite zipw_length; auto).
+    unfold solve_bicg, bicg_start. rewrite Hg, Eax. cbn [bind]. rewrite Er. cbn [bind].
+    destruct (Hit itol eq_refl) as [-> | ->]; cbn [Nat.eqb].
+    + rewrite ident_pre_ok by (auto; apply zeros_length). cbn [bind fst snd].
+      rewrite Ee. cbn [bind]. rewrite Ht. eauto.
+    + rewrite ident_pre_ok by (auto; apply zeros_length). cbn [bind].
+      rewrite ident_pre_ok by auto. cbn [bind fst snd].
+      rewrite Ee. cbn [bind]. rewrite Ht. eauto.
+  - unfold solve_bicgstab. rewrite Hg, Eax. cbn [bind]. rewrite Er. cbn [bind]. rewrite Ee. cbn [bind]. rewrite Ht. eauto.
+  - unfold solve_qmr. rewrite Hg, Eax. cbn [bind]. rewrite Er. cbn [bind]. rewrite Ee. cbn [bind]. rewrite Ht. eauto.
+Qed.
+End Startup.
